@@ -2,6 +2,7 @@ package engine
 
 import (
 	"fmt"
+	"os"
 	"go/ast"
 	"go/types"
 
@@ -66,9 +67,10 @@ func (u *Unit) localResolver(fc *frameCtx, li *loopInfo, st *State, pc *Term, ph
 						continue
 					}
 					if _, defined := fc.vals[x.X]; !defined {
-						if _, isConst := x.X.(*ssa.Const); !isConst {
-							continue
-						}
+						continue
+					}
+					if k, isConst := x.X.(*ssa.Const); isConst && k.Value == nil {
+						continue // zero-value reference recorded at a := definition; the real value follows
 					}
 					if bestBlock == nil || bestBlock.Dominates(b) {
 						best, bestAddr, bestBlock = x.X, x.IsAddr, b
@@ -110,6 +112,19 @@ func (u *Unit) localResolver(fc *frameCtx, li *loopInfo, st *State, pc *Term, ph
 					}
 					if best == nil || (bestBlock != nil && db != nil && bestBlock.Dominates(db)) {
 						best, bestAddr, bestBlock = x.X, x.IsAddr, db
+					}
+				}
+			}
+		}
+		if os.Getenv("GOVC_DEBUG") == "4" {
+			fmt.Fprintf(os.Stderr, "resolve %q at loop %d: best=%v addr=%v\n", name, li.ordinal, best, bestAddr)
+			for _, b := range fn.Blocks {
+				for _, in := range b.Instrs {
+					if x, ok := in.(*ssa.DebugRef); ok {
+						if id, ok := x.Expr.(*ast.Ident); ok && id.Name == name {
+							_, def := fc.vals[x.X]
+							fmt.Fprintf(os.Stderr, "   block %d dom=%v: X=%v (%T) defined=%v\n", b.Index, b.Dominates(li.header), x.X, x.X, def)
+						}
 					}
 				}
 			}
